@@ -1,30 +1,47 @@
 import operator
-from .transform import InstructionPass
+from .transform import FunctionPass
 from .. import ir
 
 
-class CJumpPass(InstructionPass):
-    def on_instruction(self, instruction):
-        if (
-            isinstance(instruction, ir.CJump)
-            and isinstance(instruction.a, ir.Const)
-            and isinstance(instruction.b, ir.Const)
-        ):
-            a = instruction.a.value
-            b = instruction.b.value
-            mp = {
-                "==": operator.eq,
-                "<": operator.lt,
-                ">": operator.gt,
-                ">=": operator.ge,
-                "<=": operator.le,
-                "!=": operator.ne,
-            }
-            if mp[instruction.cond](a, b):
-                label = instruction.lab_yes
-            else:
-                label = instruction.lab_no
-            block = instruction.block
-            block.remove_instruction(instruction)
-            block.add_instruction(ir.Jump(label))
-            instruction.delete()
+class CJumpPass(FunctionPass):
+    """Replace a conditional jump on two constants by a jump to the target
+    that is taken."""
+
+    def on_function(self, function):
+        changed = False
+        for block in function:
+            if block.is_empty:
+                continue
+            instruction = block.last_instruction
+            if (
+                isinstance(instruction, ir.CJump)
+                and isinstance(instruction.a, ir.Const)
+                and isinstance(instruction.b, ir.Const)
+            ):
+                a = instruction.a.value
+                b = instruction.b.value
+                mp = {
+                    "==": operator.eq,
+                    "<": operator.lt,
+                    ">": operator.gt,
+                    ">=": operator.ge,
+                    "<=": operator.le,
+                    "!=": operator.ne,
+                }
+                if mp[instruction.cond](a, b):
+                    label, other = instruction.lab_yes, instruction.lab_no
+                else:
+                    label, other = instruction.lab_no, instruction.lab_yes
+                block.remove_instruction(instruction)
+                block.add_instruction(ir.Jump(label))
+                instruction.delete()
+
+                # The other target is no longer entered from this block:
+                if other is not label:
+                    for phi in other.phis:
+                        phi.del_incoming(block)
+                changed = True
+
+        # Blocks that were only reached over the removed edges:
+        if changed:
+            function.delete_unreachable()
